@@ -1368,3 +1368,101 @@ func (c *Ctx) requireGuardsHosted(rule, keyPrefix string, site ssa.Instruction, 
 	}
 	return all
 }
+
+// rulesR4qdone: C06.qdone
+func (c *Ctx) rulesR4qdone() {
+	c.rule("C06.qdone", "Machine.WhenQueue hands out the closed channel without subscribing only when the mutation of that tick is certainly over: the machine is disposed, queueTick is strictly greater than the tick, or the queue is idle (queueProcessing false). queueTick is incremented when a mutation is taken off the queue, before its transition runs, so 'queueTick >= tick' alone reports the mutation as processed while its handlers are still running (AddSync/RemoveSync return early); whether the current tick is done is known to Subscriptions.WhenQueue (queueTickDone, recorded by ProcessWhenQueue under the same mutex)")
+	f := c.fnOpt(pm + ":Machine.WhenQueue")
+	fQT := c.field(pm, "Machine", "queueTick")
+	fQP := c.field(pm, "Machine", "queueProcessing")
+	fDisposed := c.field(pm, "Machine", "disposed")
+	fDisposing := c.field(pm, "Machine", "disposing")
+	fClosed := c.field(pm, "Subscriptions", "Closed")
+	if f == nil || fQT == nil || fQP == nil || fClosed == nil {
+		c.undecided("C06.qdone: Machine.WhenQueue / queueTick / queueProcessing / Subscriptions.Closed not found")
+		return
+	}
+	// edges that establish "over"
+	okEdge := func(b *ssa.BasicBlock, succIdx int) bool {
+		if len(b.Instrs) == 0 {
+			return false
+		}
+		ifi, ok := b.Instrs[len(b.Instrs)-1].(*ssa.If)
+		if !ok {
+			return false
+		}
+		cond, neg := stripNot(ifi.Cond)
+		truth := succIdx == 0
+		if neg {
+			truth = !truth
+		}
+		switch x := cond.(type) {
+		case *ssa.BinOp:
+			qtX := loadOfField(x.X) == fQT || mentionsField(x.X, fQT)
+			qtY := loadOfField(x.Y) == fQT || mentionsField(x.Y, fQT)
+			switch {
+			case x.Op == token.GTR && qtX && !qtY, x.Op == token.LSS && qtY && !qtX:
+				return truth // queueTick > tick holds
+			case x.Op == token.LEQ && qtX && !qtY, x.Op == token.GEQ && qtY && !qtX:
+				return !truth // !(queueTick <= tick)
+			}
+		case *ssa.Call:
+			if isAtomicLoadOf(x, fQP) {
+				return !truth // queue idle
+			}
+			if (fDisposed != nil && isAtomicLoadOf(x, fDisposed)) || (fDisposing != nil && isAtomicLoadOf(x, fDisposing)) {
+				return truth
+			}
+		}
+		return false
+	}
+	n := 0
+	for _, r := range returnsOf(f) {
+		isClosed := false
+		for _, v := range retVals(r) {
+			if derives(v, func(x ssa.Value) bool { return loadOfField(x) == fClosed }) {
+				isClosed = true
+			}
+		}
+		if !isClosed {
+			continue
+		}
+		n++
+		// reachable from the entry without crossing an establishing edge?
+		seen := map[*ssa.BasicBlock]bool{}
+		var dfs func(b *ssa.BasicBlock) bool
+		dfs = func(b *ssa.BasicBlock) bool {
+			if b == r.Block() {
+				return true
+			}
+			if seen[b] {
+				return false
+			}
+			seen[b] = true
+			for i, s := range b.Succs {
+				if okEdge(b, i) {
+					continue
+				}
+				if dfs(s) {
+					return true
+				}
+			}
+			return false
+		}
+		c.check(!dfs(f.Blocks[0]), "C06.qdone", fmt.Sprintf("Machine.WhenQueue: closed-channel return#%d only for a finished tick", n), r.Pos(),
+			"the closed channel is returned on a path that establishes neither queueTick > tick, nor an idle queue, nor a disposed machine: the mutation of the current tick may still be executing")
+	}
+	if n < 1 {
+		c.undecided("C06.qdone: Machine.WhenQueue no longer returns Subscriptions.Closed")
+	}
+	// the subscription side: Subscriptions.WhenQueue consults what ProcessWhenQueue recorded
+	sw := c.fnOpt(pm + ":Subscriptions.WhenQueue")
+	pw := c.fnOpt(pm + ":Subscriptions.ProcessWhenQueue")
+	fDone := c.fieldOpt(pm, "Subscriptions", "queueTickDone")
+	if sw == nil || pw == nil || fDone == nil {
+		c.fail("C06.qdone", "Subscriptions records the processed queue tick", f.Pos(), "Subscriptions.queueTickDone / WhenQueue / ProcessWhenQueue not found: a subscriber for the tick that is being executed cannot tell whether it is over")
+		return
+	}
+	c.check(len(writesOfFieldIn(pw, fDone)) > 0, "C06.qdone", "ProcessWhenQueue records the processed tick", pw.Pos(), "ProcessWhenQueue does not store queueTickDone")
+	c.check(len(readsOfFieldIn(sw, fDone)) > 0, "C06.qdone", "Subscriptions.WhenQueue consults the processed tick", sw.Pos(), "Subscriptions.WhenQueue does not read queueTickDone: a subscription made after ProcessWhenQueue ran for that tick waits for the next transition")
+}
